@@ -200,7 +200,10 @@ fn run_crash(cfg: &RunCfg, steps: &[Step], target: u32, k: u64, reissue: bool) -
                     label = l.clone();
                     if reissue && w.nodes[s.node].mdk.is_some() {
                         // the application repeats the interrupted call after the restart
-                        let again = Step { id: 2_000_000 + s.id, node: s.node, dt: 0, op: s.op.clone() };
+                        // same step id: the repeated call draws the same entropy as the
+                        // uninterrupted one, so both runs stay byte-comparable
+                        w.arm_crash = None;
+                        let again = Step { id: s.id, node: s.node, dt: 0, op: s.op.clone() };
                         let rec2 = w.exec(&again);
                         oracle.after_step(&mut w, &rec2);
                     }
